@@ -280,7 +280,7 @@ func (n *fnet) onHandler(h int, si *network.ServerIdentity) {
 		rel = n.release
 	}
 	n.mu.Unlock()
-	reentrant(n.S, si, h, n.hsend, ncalls, n.reent)
+	reentrant(n.S, si, h, n.hsend, 4000+ncalls, n.reent)
 	if block {
 		n.blockedHit <- struct{}{}
 		<-rel
